@@ -631,7 +631,7 @@ pub fn run(ctx: &Ctx) -> Report {
         (Impl::Reference, Impl::Litep2p, false),
         (Impl::Reference, Impl::Litep2p, true),
     ];
-    let n = ctx.pick(96_000, 1_600_000) / ctx.nshards;
+    let n = ctx.pick(400_000, 2_400_000) / ctx.nshards;
     for k in 0..n {
         let (d, l, lazy) = pairings[k % pairings.len()];
         let c = random_case(&mut rng, d, l, lazy);
@@ -641,7 +641,7 @@ pub fn run(ctx: &Ctx) -> Report {
         run_stream(&mut rep, &rt, &c);
     }
     // rogue listener confirming something else than what was proposed
-    let n_rogue = ctx.pick(1600, 32_000) / ctx.nshards;
+    let n_rogue = ctx.pick(8000, 48_000) / ctx.nshards;
     for k in 0..n_rogue {
         let pool = name_pool(&mut rng, false);
         let nd = if k % 2 == 1 { 1 } else { rng.range(1, 5) };
